@@ -38,6 +38,12 @@ RULE = ("roundtrip_local: LagrangeGrid (boundary) / BSplineGrid (boundary on sub
         "Every clause is asserted after every round; a violation that appears only after earlier rounds (a fresh grid "
         "object passes the same configuration) gets the signature suffix /only-after-earlier-rounds-on-the-same-grid-object. polynomials: the same two grid kinds with boundary (and B-spline modified for constants), a vector of "
         "monomials in the box-centred variable up to the demanded degree, evaluated at random points of the box. "
+        "Two fifths of the polynomial cases take the degree as a wide dimension: B-spline p = every odd number up to "
+        "21 (the library only asserts 'p odd'), Lagrange p = 1..10, boundary on, d = 1-2, local sub-boxes or global complete "
+        "dyadic trees (a quarter with a few points of the next level), the finest level of one dimension drawn from "
+        "{switch-1, switch, switch, switch+1} (three quarters) or uniformly from 0..5, where switch = ceil(log2(p+1)) "
+        "for B-splines (first level with not-a-knot B-splines instead of Lagrange polynomials) and p-1 for Lagrange; "
+        "B-spline levels that use BSpline.recursive_eval are capped by cost (p<=9: 5, p=11: 4, p>=13: Lagrange levels only). "
         "interpolate_grid: the tensor-grid interpolation API of both grid kinds. interleaved: 2-3 live grid objects of one kind "
         "(global 3/4, local 1/4) with independently drawn family, p, boundary mode, domain, tree / area and output length, "
         "three quarters of the cases with the same level vector (the key of the surplus store; local: the same area and "
@@ -962,7 +968,17 @@ def run_polynomials(case):
         if res is None:
             return False
         mats, cond = res
-        out.cls("demanded-degree=%d" % max(kmax))
+        out.cls("demanded-degree=%d" % max(kmax), "p=%d" % cx.p)
+        if cx.round == 0:
+            sw = switch_level(cx.family, cx.p)
+            finest = [cx.lv[d] if cx.kind == "local" else max(cx.trees[d][1]) for d in range(cx.dim)]
+            for l in finest:
+                if l == sw:
+                    out.cls("finest-level==switch-level")
+                elif l == sw - 1:
+                    out.cls("finest-level==switch-level-1")
+                elif l == sw + 1:
+                    out.cls("finest-level==switch-level+1")
         if cx.modified:
             out.cls("modified:linear-demanded" if max(kmax) >= 1 else "modified:constants-only")
         if max(kmax) == cx.p and cx.p >= 3:
@@ -1704,8 +1720,86 @@ def roundtrip_global_strategy(tier):
     return _global_case(tier)
 
 
+def switch_level(family, p):
+    """the hierarchical level at which the regime of the basis changes: B-splines - the first level that carries
+    not-a-knot B-splines of degree p instead of global Lagrange polynomials (level >= log2(p+1)); Lagrange - the first
+    level whose functions have the full degree p (level p-1)"""
+    return int(math.ceil(math.log2(p + 1) - 1e-12)) if family == "bspline" else p - 1
+
+
+def _bspline_level_cap(p):
+    """finest level that is still affordable: BSpline.recursive_eval visits ~C(p, p/2) paths per evaluation"""
+    if p <= 7:
+        return 5
+    if p == 9:
+        return 5
+    if p == 11:
+        return 4
+    return switch_level("bspline", p) - 1          # p >= 13: Lagrange levels only (3 for p <= 15, 4 above)
+
+
+@st.composite
+def _highp_case(draw, tier):
+    """degree p as a wide dimension (B-spline: every odd p up to 21 - the library only asserts 'p odd'; Lagrange 1..10)
+    combined with finest levels chosen around the regime switch level, boundary points on, d = 1 or 2"""
+    family = draw(st.sampled_from(["bspline", "bspline", "lagrange"]))
+    if family == "bspline":
+        p = draw(st.sampled_from([1, 3, 5, 7, 9, 9, 11, 13, 15, 17, 19, 21]))
+        cap = _bspline_level_cap(p)
+    else:
+        p = draw(st.integers(1, 10))
+        cap = 5
+    sw = switch_level(family, p)
+    near = [l for l in (sw - 1, sw, sw, sw + 1) if 0 <= l <= cap]
+    L = draw(st.sampled_from(near)) if near and draw(st.integers(0, 3)) > 0 else draw(st.integers(0, cap))
+    dim = draw(st.sampled_from([1, 1, 2]))
+    kind = draw(st.sampled_from(["local", "global"]))
+    if kind == "global" and L == 0:
+        L = 1
+    if dim == 2 and L >= 5:
+        L = 4
+    other = draw(st.integers(0 if kind == "local" else 1, 2))
+    levels = [L] if dim == 1 else ([L, other] if draw(st.booleans()) else [other, L])
+    a, ln = draw(_domain(dim))
+    case = dict(kind=kind, family=family, p=p, mode="boundary", a=a, len=ln, rng=draw(st.integers(0, 2 ** 31 - 1)),
+                highp=True)
+    if kind == "local":
+        case.update(paths=[draw(st.lists(st.integers(0, 1), min_size=0, max_size=2)) for _ in range(dim)], lv=levels)
+    else:
+        trees = []
+        for l in levels:
+            t = complete_splits(l)
+            if draw(st.integers(0, 3)) == 0:            # a few points of the next level (not complete)
+                t = t + [[draw(st.integers(0, 2 ** l - 1)), 0.5] for _ in range(draw(st.integers(1, 2)))]
+            trees.append(t)
+        # the points of an incomplete next level must stay affordable as well
+        case.update(trees=trees, max_level=min(11, max(levels) + 1) if family == "lagrange" or max(levels) + 1 <= cap
+                    else max(levels))
+    return case
+
+
+def polynomials_fixed():
+    """degree x finest level at and next to the regime switch level, local and global, 1D and one 2D case each"""
+    res = []
+    for fam, p, levels in (("bspline", 3, (1, 2, 3)), ("bspline", 5, (2, 3)), ("bspline", 7, (2, 3, 4)),
+                           ("bspline", 9, (3, 4)), ("bspline", 11, (3,)), ("bspline", 13, (3,)), ("bspline", 17, (3,)),
+                           ("lagrange", 4, (2, 3, 4)), ("lagrange", 6, (4, 5))):
+        for L in levels:
+            res.append(dict(kind="local", family=fam, p=p, mode="boundary", a=[-1.0], len=[3.0], paths=[[1]], lv=[L],
+                            rng=L, highp=True))
+            res.append(dict(kind="global", family=fam, p=p, mode="boundary", a=[0.25], len=[2.0],
+                            trees=[complete_splits(L)], max_level=L, rng=L + 1, highp=True))
+        L = levels[0]
+        res.append(dict(kind="local", family=fam, p=p, mode="boundary", a=[0.0, 2.0], len=[1.0, 0.5], paths=[[], [0]],
+                        lv=[1, L], rng=7, highp=True))
+        res.append(dict(kind="global", family=fam, p=p, mode="boundary", a=[0.0, 2.0], len=[1.0, 0.5],
+                        trees=[complete_splits(L), complete_splits(2)], max_level=max(L, 2), rng=8, highp=True))
+    return res
+
+
 def polynomials_strategy(tier):
-    return st.one_of(_local_case(tier, poly=True), _global_case(tier, poly=True), _global_case(tier, poly=True))
+    return st.one_of(_local_case(tier, poly=True), _global_case(tier, poly=True), _global_case(tier, poly=True),
+                     _highp_case(tier), _highp_case(tier))
 
 
 def interpolate_grid_strategy(tier):
@@ -2012,7 +2106,7 @@ SUBS = [
     Sub("roundtrip_global", roundtrip_global_strategy, run_roundtrip_global, dict(quick=2400, thorough=30000),
         budget_s=dict(quick=9, thorough=130), fixed_cases=roundtrip_fixed, case_timeout=60),
     Sub("polynomials", polynomials_strategy, run_polynomials, dict(quick=2400, thorough=30000),
-        budget_s=dict(quick=8, thorough=110), case_timeout=60),
+        budget_s=dict(quick=8, thorough=110), fixed_cases=polynomials_fixed, case_timeout=60),
     Sub("interpolate_grid", interpolate_grid_strategy, run_interpolate_grid, dict(quick=320, thorough=3200),
         budget_s=dict(quick=5, thorough=30), case_timeout=60),
     Sub("interleaved", interleaved_strategy, run_interleaved, dict(quick=800, thorough=8000),
